@@ -585,6 +585,41 @@ func Run(args []string) {
 			}
 		}
 	}
+	// a cabinet whose header fields agree with one another and with nothing else: reserve header of exactly 20 bytes,
+	// CabinetSize = TotalSize and OffsetFiles both just below 4 GiB (a few real bytes apart), and a signature size of
+	// 1 GiB over eight bytes of signature - a guard that compares one of these fields with another proves nothing
+	{
+		le32 := func(b *bytes.Buffer, v uint32) { b.Write([]byte{byte(v), byte(v >> 8), byte(v >> 16), byte(v >> 24)}) }
+		le16 := func(b *bytes.Buffer, v uint16) { b.Write([]byte{byte(v), byte(v >> 8)}) }
+		for _, sig := range []uint32{1 << 30, 0xfffffff0} {
+			var b bytes.Buffer
+			b.WriteString("MSCF")
+			le32(&b, 0)
+			le32(&b, 0xfffffff0) // TotalSize
+			le32(&b, 0)
+			le32(&b, 0xfffffff0-16) // OffsetFiles
+			le32(&b, 0)
+			le16(&b, 0x0103) // version
+			le16(&b, 0)      // folders
+			le16(&b, 0)      // files
+			le16(&b, 4)      // flags: reserve present
+			le16(&b, 0)      // set id
+			le16(&b, 0)      // cabinet number
+			le32(&b, 20)     // reserve header: header size 20, folder 0, data 0
+			le32(&b, 0x100000)
+			le32(&b, 0xfffffff0) // CabinetSize
+			le32(&b, sig)
+			le32(&b, 0)
+			le32(&b, 0)
+			b.Write(make([]byte, 16+8))
+			for _, entry := range []string{"verify", "probe", "transform", "server"} {
+				n++
+				p := filepath.Join(dir, fmt.Sprintf("crafted-%d.cab", n))
+				os.WriteFile(p, b.Bytes(), 0600)
+				cases = append(cases, &caseT{Type: "cab", Signed: true, Format: "cab", Field: "header sizes agreeing near 4 GiB", Class: fmt.Sprintf("signature size %d", sig), Entry: entry, path: p})
+			}
+		}
+	}
 	// exponent fields: the class table's boundary values of a one-byte field (127, 128, 255) all shift to zero; the
 	// values in between are the ones that make a size of their own
 	for bi, b := range bases {
